@@ -218,6 +218,7 @@ class Garbage(Op):
     name = "garbage"
     model = False
     _cfgs = None
+    retry_scale = 3      # a parse that needs more than 15 s on a short text counts as a hang
 
     def gen(self, rng, tier, boost):
         n = 2500 * boost if tier == "quick" else 12000 * boost
@@ -227,6 +228,20 @@ class Garbage(Op):
             for _ in range(rng.choice([0, 1, 1, 2, 3])):
                 s = mutate(rng, s)
             yield (rng.choice(names), s)
+        # long digit runs in every numeric position of each notation, well-formed and not (a pattern that
+        # backtracks exponentially on them is a hang within a few dozen digits)
+        digits = "14285714285714285714285714285714285714285714285714"
+        for k in (22, 30, 48):
+            run = digits[:k]
+            for tmpl in ("PT%sS", "PT%sM", "PT%sH", "PT0.%sS", "PT0,%sM", "PT%s", "PT%sx", "PT%sSM", "P%sD", "P%sY",
+                         "P%sW", "P%s", "P1Y%sM", "PT1.%s.1S", "PT%s,%sS", "P0001-01-01T%s", "-P%sDT%sS"):
+                yield ("dur", tmpl.replace("%s", run))
+            for tmpl in ("2000-01-01T%sZ", "2000-01-01T00:00:00,%sZ", "%s", "2000%s", "2000-01-01T00Z%s",
+                         "+%s-01-01", "2000-01-01T00:00:00+%s", "T%s", "2000-W%s", "2000-%s"):
+                yield (rng.choice([n_ for n_ in names if n_.startswith("tp/")]), tmpl.replace("%s", run))
+            for tmpl in ("R5/2000-01-01T00Z/PT0.%sS", "R2/2000-01-01T00Z/PT%sx", "R/PT%sZ/2000",
+                         "R2/2000/2000-01-01T00:00:00,%s", "R2/%s/P1D", "R2/P1D/%s"):
+                yield ("rec", tmpl.replace("%s", run))
         # bounded recurrences with huge repetition counts are the cost finding F10: keep a witness
         yield ("rec", "R99999999999999/2000/P1D")
         yield ("rec/trunc", "R5/T00Z/P1D")      # known finding F11 witness
@@ -381,6 +396,87 @@ class TextAccept(Op):
         return "textaccept/%s/%s" % (a[0], "legal" if spec_accept(a[0], a[2:]) else "illegal")
 
 
+class DecAccept(Op):
+    """Decimal fractions on the last time unit, through the constructor and through text: legal iff every field
+    is in range and the time of day does not exceed 24:00 (hour 24 only as exactly 24:00:00, fraction 0)."""
+    prop = PROP
+    name = "decaccept"
+    model = False
+
+    def gen(self, rng, tier, boost):
+        n = 600 * boost if tier == "quick" else 5000 * boost
+        fracs = ["0", "5", "25", "999999", "000001", "0000", "1", "50", "000"]
+        for _ in range(n):
+            m = gens.mode(rng)
+            hh, mi, ss = rng.choice([(24, 0, 0), (24, 0, 0), (23, 59, 59), (0, 0, 0), (12, 30, 30), (24, 0, 1),
+                                     (24, 1, 0), (23, 0, 0), (23, 59, 0), (12, 60, 0), (12, 0, 60), (25, 0, 0)])
+            unit = rng.choice("hms")
+            if unit == "h" and (mi or ss):
+                mi = ss = 0
+            if unit == "m" and ss:
+                ss = 0
+            frac = rng.choice(fracs)
+            how = rng.choice(["ext", "basic", "ctor"])
+            sep = rng.choice(",.")
+            yield (m, hh, mi, ss, unit, frac, how, sep)
+
+    def line(self, a):
+        return "decaccept " + " ".join(str(x) for x in a)
+
+    def text(self, a):
+        m, hh, mi, ss, unit, frac, how, sep = a
+        ext = how == "ext"
+        c = ":" if ext else ""
+        t = "%02d" % hh
+        if unit in "ms":
+            t += c + "%02d" % mi
+        if unit == "s":
+            t += c + "%02d" % ss
+        return ("2001-03-04T" if ext else "20010304T") + t + sep + frac + "Z"
+
+    def impl(self, a):
+        from metomi.isodatetime.parsers import TimePointParser
+        from metomi.isodatetime.data import TimePoint
+        m, hh, mi, ss, unit, frac, how, sep = a
+        set_mode(m)
+        try:
+            if how == "ctor":
+                kw = dict(year=2001, month_of_year=3, day_of_month=4, hour_of_day=hh)
+                f = float("0." + frac)
+                if unit == "h":
+                    kw["hour_of_day_decimal"] = f
+                elif unit == "m":
+                    kw.update(minute_of_hour=mi, minute_of_hour_decimal=f)
+                else:
+                    kw.update(minute_of_hour=mi, second_of_minute=ss, second_of_minute_decimal=f)
+                p = TimePoint(**kw)
+            else:
+                p = TimePointParser().parse(self.text(a))
+        except ValueError:
+            return "err"
+        return "ok %r %r %r" % (p.hour_of_day, p.minute_of_hour, p.second_of_minute)
+
+    def oracle(self, a, out):
+        from fractions import Fraction
+        m, hh, mi, ss, unit, frac, how, sep = a
+        f = Fraction(int(frac), 10 ** len(frac))
+        total = Fraction(hh * 3600 + mi * 60 + ss) + f * {"h": 3600, "m": 60, "s": 1}[unit]
+        legal = (0 <= hh <= 24 and 0 <= mi < 60 and 0 <= ss < 60 and total <= 86400
+                 and (hh < 24 or total == 86400))
+        what = "TimePoint(hour=%d, minute=%d, second=%d, decimal on %s = 0.%s)" % (hh, mi, ss, unit, frac) \
+            if how == "ctor" else repr(self.text(a))
+        if out.startswith("EXC") or out == "Timeout":
+            return "%s in %s raised %s" % (what, m, out)
+        if legal and out == "err":
+            return "%s in %s is a legal time of day but was refused" % (what, m)
+        if not legal and out != "err":
+            return "%s in %s is not a possible time of day (24:00 is the only time with hour 24) but was accepted: %s" % (
+                what, m, out)
+
+    def label(self, a):
+        return "decaccept/%s/%s/h%s" % (a[6], a[4], "24" if a[1] == 24 else "<24" if a[1] < 24 else ">24")
+
+
 class ExcClasses(Op):
     """Every exception class the package defines derives from ValueError (live MRO)."""
     prop = PROP
@@ -408,4 +504,4 @@ class ExcClasses(Op):
 
 
 def ops():
-    return [MkTP(), TextAccept(), Garbage(), ExcClasses()]
+    return [MkTP(), TextAccept(), DecAccept(), Garbage(), ExcClasses()]
